@@ -1,7 +1,7 @@
-EXPLANATION = ('C19: a DeckRecord with symbolic values and a symbolic defaulted pattern is written with the real DeckRecord::write / DeckItem::write_vector / DeckOutput code to an in-memory stream, '
+EXPLANATION = ('C19 (also: data items with defaulted entries, TITLE after a record with trailing defaults and with words that need quotes, block terminators of double-record keywords, UDA numbers): a DeckRecord with symbolic values and a symbolic defaulted pattern is written with the real DeckRecord::write / DeckItem::write_vector / DeckOutput code to an in-memory stream, '
   'tokenised and scanned back with the real RawRecord / ParserRecord::parse / ParserItem::scan path, and compared item by item (values, defaulted flags); writing the re-read record must reproduce the text.')
 BOUNDS = 'records of 4 single-valued items (thorough: 5), every defaulted/explicit pattern, int values in (-1000, 1000), strings of 3 characters with an embedded blank, slash or star'
-OUTSIDE = 'doubles (precision-10 printing, strtod), TITLE/code/table-collection/data-array keyword shapes and line splitting (need ParserKeyword from the generated tables), FileDeck'
+OUTSIDE = 'symbolic doubles (formatting of a symbolic double is out of reach; five concrete numbers are checked for the 10-digit precision), table-collection keywords and line splitting of long data arrays (need ParserKeyword from the generated tables), FileDeck'
 ASSUMPTIONS = ['std::ostringstream replaced by the memfile stream model; operator<<(int) prints decimal digits (symbolic values: one path per sign/digit count)']
 TUS = ['opm/input/eclipse/Parser/ParserRecord.cpp', 'opm/input/eclipse/Parser/ParserItem.cpp', 'opm/input/eclipse/Parser/raw/RawRecord.cpp', 'opm/input/eclipse/Parser/raw/StarToken.cpp',
        'opm/input/eclipse/Parser/ParseContext.cpp', 'opm/input/eclipse/Parser/ErrorGuard.cpp', 'opm/input/eclipse/Deck/DeckRecord.cpp', 'opm/input/eclipse/Deck/DeckItem.cpp', 'opm/input/eclipse/Deck/UDAValue.cpp',
@@ -10,4 +10,8 @@ TUS = ['opm/input/eclipse/Parser/ParserRecord.cpp', 'opm/input/eclipse/Parser/Pa
 def jobs(tier):
     n = 4 if tier == 'quick' else 5
     return [dict(name='record_int', src='h_write.cpp', defs={'NITEMS': n, 'STRITEMS': 0}, entry='h_roundtrip', tus=TUS, fp='real', loopmax=4000, maxsteps=200000000, bounds='%d int items' % n),
-            dict(name='record_str', src='h_write.cpp', defs={'NITEMS': n, 'STRITEMS': 1}, entry='h_roundtrip', tus=TUS, fp='real', loopmax=4000, maxsteps=200000000, bounds='%d string items' % n)]
+            dict(name='record_str', src='h_write.cpp', defs={'NITEMS': n, 'STRITEMS': 1}, entry='h_roundtrip', tus=TUS, fp='real', loopmax=4000, maxsteps=200000000, bounds='%d string items' % n),
+            dict(name='data_item', src='h_write2.cpp', defs={'NV': n}, entry='h_data_item', tus=TUS, fp='real', loopmax=4000, maxsteps=200000000, bounds='one int item with %d values, every defaulted pattern' % n),
+            dict(name='title_after_defaults', src='h_write2.cpp', defs={}, entry='h_title', tus=TUS + ['opm/input/eclipse/Deck/DeckKeyword.cpp'], fp='real', loopmax=4000, maxsteps=200000000, bounds='a 3-item record with any trailing defaults, then TITLE with two words of 3 characters incl. blank, slash or star'),
+            dict(name='double_record', src='h_write2.cpp', defs={}, entry='h_double_record', tus=TUS + ['opm/input/eclipse/Deck/DeckKeyword.cpp'], fp='real', loopmax=4000, maxsteps=200000000, bounds='two blocks of 1-2 records'),
+            dict(name='uda_number', src='h_write2.cpp', defs={}, entry='h_uda_number', tus=TUS, fp='real', loopmax=4000, maxsteps=200000000, bounds='five concrete numbers with up to 10 significant digits (formatting of a symbolic double is out of reach)')]
